@@ -209,13 +209,30 @@ func H_C14_sign_verify() {
 		pub, err = NewKeyFromPublic(sk.Public())
 		vAssume(err == nil)
 	}
+	// with and without key_ops (the private half may sign, the public half may verify)
+	withOps := vChoose("ops", 3)
+	if withOps >= 1 {
+		priv.Ops = []KeyOp{KeyOpSign}
+	}
+	if withOps == 2 {
+		pub.Ops = []KeyOp{KeyOpVerify}
+	}
 	// over the wire
 	bp, e1 := priv.MarshalCBOR()
 	bq, e2 := pub.MarshalCBOR()
 	vAssume(e1 == nil && e2 == nil)
 	var kp, kq Key
-	vAssume(kp.UnmarshalCBOR(bp) == nil)
-	vAssume(kq.UnmarshalCBOR(bq) == nil)
+	if vChoose("batch", 2) == 1 {
+		// a batch parsed through one reused variable, each result copied out
+		var k Key
+		vAssume(k.UnmarshalCBOR(bp) == nil)
+		kp = k
+		vAssume(k.UnmarshalCBOR(bq) == nil)
+		kq = k
+	} else {
+		vAssume(kp.UnmarshalCBOR(bp) == nil)
+		vAssume(kq.UnmarshalCBOR(bq) == nil)
+	}
 	signer, serr := kp.Signer()
 	vLogErr("Signer", serr)
 	vAssert("keys: the decoded private key yields a signer", serr == nil)
